@@ -396,6 +396,46 @@ theorem ff_iff_ancestor {g : Graph} (hb : Built g) {c n : Commit} (hc : c ∈ g)
         · intro ⟨_, h⟩
           exact absurd (key_of hla hln hca.2 (hmax n.addr n ⟨h, refln⟩ hln)) han
 
+/-! ### merge base of a commit and one of its descendants -/
+
+/-- **lca_of_ancestor.**  When `c1` is `c2` itself or one of its ancestors, the merge base of the
+two — in either argument order — is `c1`: this is what makes a second `dolt merge` of an already
+merged branch a no-op and a merge into a strict descendant a fast-forward.  Holds on every reachable
+graph, whichever of the two algorithms `FindCommonAncestor` takes. -/
+theorem lca_of_ancestor {g : Graph} (hb : Built g) {c1 c2 : Commit} (h1 : c1 ∈ g) (h2 : c2 ∈ g)
+    (ha : AncStar g c1.addr c2.addr) :
+    findCommonAncestor g c1 c2 = .ok (some c1.addr) ∧ findCommonAncestor g c2 c1 = .ok (some c1.addr) := by
+  have hi := hb.inv
+  have hl1 := lookup_self_of_inv hi h1
+  have refl1 : AncStar g c1.addr c1.addr := .inl ⟨rfl, by rw [hl1]; rfl⟩
+  have hcom : Common g c1.addr c2.addr c1.addr := ⟨refl1, ha⟩
+  have main : findCommonAncestor g c1 c2 = .ok (some c1.addr) := by
+    obtain ⟨r, hr, hs⟩ := lca_sound_complete hb h1 h2
+    rw [hr]
+    cases r with
+    | none => exact absurd hcom (hs c1.addr)
+    | some a =>
+      obtain ⟨ac, hla, hca, hmax⟩ := hs
+      have hh := ancStar_height_le hi hca.1 hla hl1
+      have : a = c1.addr := by
+        rcases hmax c1.addr c1 hcom hl1 with e | e
+        · have := congrArg Prod.snd e; simp only [Commit.key] at this
+          rw [this]; exact ((lookup_some hla).2).symm
+        · rcases e with e | e
+          · simp only [Commit.key] at e; omega
+          · simp only [Commit.key] at e; exact hh.2 e.1.symm
+      rw [this]
+  exact ⟨main, (lca_symmetric hb h2 h1).trans main⟩
+
+/-- the merge base of a commit with itself is that commit -/
+theorem lca_self {g : Graph} (hb : Built g) {c : Commit} (h : c ∈ g) :
+    findCommonAncestor g c c = .ok (some c.addr) :=
+  (lca_of_ancestor hb h h (.inl ⟨rfl, by rw [lookup_self_of_inv hb.inv h]; rfl⟩)).1
+
+/-- non-vacuity of `lca_of_ancestor`: 30 is a proper ancestor of 50 in the criss-cross graph -/
+example : findCommonAncestor crissCrossGraph ⟨30, [10], 2, [(1, 10)]⟩ c50 = .ok (some 30) := by
+  simp [findCommonAncestor, c50, descKeys, Commit.key, mergeWalk, klt]
+
 /-! ### non-vacuity -/
 
 example : Built crissCrossGraph ∧ c40 ∈ crissCrossGraph ∧ c50 ∈ crissCrossGraph ∧
